@@ -684,9 +684,11 @@ Inductive event :=
 | ETopology (nodes : list (bytes * bool)) (newslots : list (Z * Z * bytes))
                                (* the ticker applies an adopted topology: (address, is replica) of every
                                   usable node, and the slot ranges of the masters *)
-| EChoices (ch : list (bytes * bytes)).
+| EChoices (ch : list (bytes * bytes))
                                (* no event of the loop: the oracle for the random numbers route will draw
                                   while the next client bytes are read (see slot_target) *)
+| EDialable (addr : bytes) (d : bool).
+                               (* the environment: the node at addr stops / starts accepting connections *)
 
 Definition order_fn (l : list (nat * list N)) (s : nat) : list N :=
   match lookup s l with Some o => o | None => [] end.
@@ -719,6 +721,11 @@ Definition apply_topology (st : pst) (nodes : list (bytes * bool)) (newslots : l
      tasks := tasks st ++ map TClose (concat (map (topology_closing nodes) (pools st)));
      inflight := inflight st; next_mid := next_mid st; next_sid := next_sid st; cfg := cfg st; choices := choices st |}.
 
+Definition set_dialable (st : pst) (addr : bytes) (d : bool) : pst :=
+  set_pools st (map (fun p => if beqb (pp_addr p) addr
+                              then {| pp_addr := pp_addr p; pp_slave := pp_slave p; pp_conns := pp_conns p; pp_closed := pp_closed p; pp_dialable := d |}
+                              else p) (pools st)).
+
 Definition step (st : pst) (e : event) : result pst :=
   match e with
   | EConnect c allowed =>
@@ -743,6 +750,7 @@ Definition step (st : pst) (e : event) : result pst :=
       end
   | ETopology nodes newslots => ROk (apply_topology st nodes newslots)
   | EChoices ch => ROk (set_choices st ch)
+  | EDialable addr d => ROk (set_dialable st addr d)
   end.
 
 Fixpoint run (st : pst) (evs : list event) : result pst :=
